@@ -10,6 +10,8 @@
 -/
 import Lumina.Gen.C33
 import Lumina.Proofs.Daser
+import Lumina.Proofs.DaserSampled
+import Lumina.Proofs.SampledShares
 
 namespace Lumina.Props.C33
 open Lumina.Model.Daser Lumina.Proofs.Daser Lumina.Proofs.DaserIndexes
@@ -171,5 +173,110 @@ example : specOK (view33 (run s0 (h1.take 3)).1) (.answer 2 (1,1) false) [Tok.sh
 example : specOK (view33 (run s0 (h1.take 2)).1) (.peers 1) [Tok.req 2 [(0,0),(0,1),(1,0),(4,4)]] = false := by decide
 example : specOK (view33 s0) (.peers 1) [Tok.metaUpd 2 [(0,0),(0,0),(1,0),(1,1)]] = false := by decide
 example : specOK (view33 s0) (.peers 1) [Tok.metaUpd 3 g2] = false := by decide
+
+/-! ### ADDITIONAL (strengthening): the history form of "marked only after full success", and its composition with C10
+
+`mark_all_retrieved` needs no assumption: it is a ghost-history invariant of the worker model
+(`Proofs/DaserSampled.lean`), the temporal reading of what the monitor checks step by step (`accepted_mark`,
+`accepted_result`, `accepted_choice`).  `sampled_shares_checked` combines it with C10's `mh_sample_sound` under ONE
+explicit assumption about third-party code, `BeetswapContract`. -/
+
+open Lumina.Proofs.DaserSampled in
+/-- **every history, whole-history form.**  Whenever the worker calls `mark_as_sampled(h)` — in reaction to stimulus `ev`
+    after ANY history `pre` (answers in any order, timeouts, store changes, reconnections, any draws) — there is a set
+    of shares of block `h`, pairwise distinct, inside the square of `h`'s header, `min (w², 16)` many, EACH of which was
+    answered successfully (`Ok(sample)`, not a timeout) by the network while its request was outstanding, at some
+    point of the history up to and including `ev` (`hits`). -/
+theorem mark_all_retrieved (limit extra : Nat) (hdr : Nat → Hdr)
+    (pre : List (Ev × List (List (Nat × Nat)))) (ev : Ev) (rnd : List (List (Nat × Nat))) (h : Nat)
+    (hm : Tok.mark h ∈ (step (run (init { limit := limit, extra := extra, maxSamples := Lumina.Gen.C33.MAX_SAMPLES_NEEDED, prunerThreshold := Lumina.Gen.C33.PRUNER_THRESHOLD } hdr) pre).1
+        ev rnd).2) :
+    ∃ shares : List Share, shares.Nodup ∧ (∀ p ∈ shares, p.1 < (hdr h).width ∧ p.2 < (hdr h).width) ∧
+      shares.length = min ((hdr h).width * (hdr h).width) 16 ∧
+      ∀ p ∈ shares, (h, p) ∈ hits (init { limit := limit, extra := extra, maxSamples := Lumina.Gen.C33.MAX_SAMPLES_NEEDED, prunerThreshold := Lumina.Gen.C33.PRUNER_THRESHOLD } hdr)
+        (pre ++ [(ev, rnd)]) := by
+  generalize hs0 : init _ hdr = s0 at hm ⊢
+  have h16 : s0.cfg.maxSamples = 16 := by rw [← hs0]; exact max_samples_is_16
+  have hhdr : s0.hdr = hdr := by rw [← hs0]; rfl
+  have h0 : FutsOK s0 [] := by
+    intro f hf; rw [← hs0] at hf; simp [init, Worker.init] at hf
+  obtain ⟨h1, h2, h3⟩ := run_futsOK pre s0 [] h16 h0
+  obtain ⟨_, _, _, h4⟩ := step_futsOK (run s0 pre).1 ev rnd _ (by rw [h3]; exact h16) h1
+  obtain ⟨shares, hok, hall⟩ := h4 h hm
+  rw [h2, hhdr] at hok
+  obtain ⟨k1, k2, k3⟩ := sharesOK_spelled_out _ _ hok
+  refine ⟨shares, k1, k2, k3, fun p hp => ?_⟩
+  rw [hits_append]
+  simpa using hall p hp
+
+open Lumina.Model.ShwapHasher Lumina.Proofs.SampledShares in
+/-- **The beetswap contract** — an ASSUMPTION about third-party code (beetswap's bitswap client), not proved here: a
+    sample request is answered successfully only with a block for which the registered multihasher
+    (`ShwapMultihasher`, the subject of C10) yielded exactly the multihash of the REQUESTED CID
+    (`sample_cid(row, col, height)`), run against a header store each of whose headers commits to the square `sq` of
+    its height.  (beetswap hashes every received block with the multihasher registered for the block's multihash
+    code, rebuilds the CID from the result and resolves a query only if that CID is on its wantlist.) -/
+def BeetswapContract (H : Lumina.Model.Nmt.HashFn) (P : Params) (sq : Nat → Lumina.Model.Eds.Eds) (kk : Nat → Nat)
+    (answered : List (Nat × Share)) : Prop :=
+  ∀ hp ∈ answered, ∃ store blk, StoreCommits H sq kk store ∧
+    multihash H P store Lumina.Gen.C15.SAMPLE_ID_MULTIHASH_CODE blk = .ok (mhBytes (sampleCid hp.1 hp.2))
+
+open Lumina.Model.ShwapHasher Lumina.Proofs.SampledShares Lumina.Proofs.DaserSampled in
+/-- **A block marked sampled really had its shares checked** (C33 × C10), modest form.  Under the idealised hash and
+    the beetswap contract for the successful answers of the history; heights are `u64` and square widths `u16` values
+    (the Rust types): whenever the worker marks height `h` as sampled there are `min (w², 16)` pairwise distinct
+    in-square coordinates of `h`'s square for each of which a block was delivered whose decoded sample carries exactly
+    the COMMITTED share at that coordinate (the share of the square that the stored header's DAH commits to).
+    What is NOT claimed: anything about beetswap itself, or that the store consulted by the multihasher and the
+    header chain `hdr` the worker reads describe the same headers (both are parameters). -/
+theorem sampled_shares_checked {H : Lumina.Model.Nmt.HashFn} (hk : Lumina.Proofs.Nmt.HashOK H) (P : Params)
+    (sq : Nat → Lumina.Model.Eds.Eds) (kk : Nat → Nat) (limit extra : Nat) (hdr : Nat → Hdr)
+    (hwid : ∀ x, (hdr x).width ≤ 65536)
+    (pre : List (Ev × List (List (Nat × Nat)))) (ev : Ev) (rnd : List (List (Nat × Nat))) (h : Nat) (hh : h < 2 ^ 64)
+    (hbs : BeetswapContract H P sq kk (hits (init { limit := limit, extra := extra, maxSamples := Lumina.Gen.C33.MAX_SAMPLES_NEEDED, prunerThreshold := Lumina.Gen.C33.PRUNER_THRESHOLD } hdr)
+        (pre ++ [(ev, rnd)])))
+    (hm : Tok.mark h ∈ (step (run (init { limit := limit, extra := extra, maxSamples := Lumina.Gen.C33.MAX_SAMPLES_NEEDED, prunerThreshold := Lumina.Gen.C33.PRUNER_THRESHOLD } hdr) pre).1
+        ev rnd).2) :
+    ∃ shares : List Share, shares.Nodup ∧ (∀ p ∈ shares, p.1 < (hdr h).width ∧ p.2 < (hdr h).width) ∧
+      shares.length = min ((hdr h).width * (hdr h).width) 16 ∧
+      ∀ p ∈ shares, ∃ blk, CarriesCommittedShare P sq h p blk := by
+  obtain ⟨shares, k1, k2, k3, k4⟩ := mark_all_retrieved limit extra hdr pre ev rnd h hm
+  refine ⟨shares, k1, k2, k3, fun p hp => ?_⟩
+  obtain ⟨store, blk, hst, hok⟩ := hbs (h, p) (k4 p hp)
+  have hw := hwid h
+  have hp12 := k2 p hp
+  exact ⟨blk, accepted_block_is_committed_share hk P hst hh (by omega) (by omega) hok⟩
+
+/-! non-vacuity of the two additional theorems: in the concrete history `h1` block 2 IS marked (so the premise `hm` is
+    met), with the four hits of its 2 × 2 square; and the beetswap contract is satisfiable (toy hash and the concrete
+    accepted sample block of `Props/C10`; `HashOK` itself is the idealisation, met by no computable hash) -/
+
+set_option maxRecDepth 100000 in
+example : Tok.mark 2 ∈ (step (run s0 (h1.take 5)).1 (.answer 2 (1,0) false) [[]]).2 ∧
+    Lumina.Proofs.DaserSampled.hits s0 (h1.take 6) = [(2,(0,0)), (2,(1,1)), (2,(0,1)), (2,(1,0))] := by decide
+
+set_option maxRecDepth 100000 in
+open Lumina.Props.C10 Lumina.Props.C04 in
+example : BeetswapContract toyH32 okP (fun _ => okEds) (fun _ => 1) [(1, (0, 0))] := by
+  intro hp hmem
+  simp only [List.mem_singleton] at hmem
+  subst hmem
+  refine ⟨okStore, [2], ?_, ?_⟩
+  · intro h d hs
+    have hd : d = okDah := by
+      by_cases h1 : h = 1
+      · simp [okStore, h1] at hs; exact hs.symm
+      · simp [okStore, h1] at hs
+    subst hd
+    exact ⟨rfl, rfl, Lumina.Props.C06.nonvacuity_okEds_shape.size⟩
+  · have hy : yields (Lumina.Model.ShwapHasher.multihash toyH32 okP okStore Lumina.Gen.C15.SAMPLE_ID_MULTIHASH_CODE [2])
+        okSampleId.toCid = true := by decide +kernel
+    unfold yields at hy
+    split at hy
+    · rename_i hsh heq
+      rw [heq]
+      have : hsh = Lumina.Model.ShwapHasher.mhBytes okSampleId.toCid := by simpa using hy
+      rw [this]; rfl
+    · cases hy
 
 end Lumina.Props.C33
